@@ -94,6 +94,8 @@ def cases(draw):
             "sharding": draw(sharding_st), "gzip": draw(st.booleans()),
             "cli": draw(st.booleans()),
             "rerun": draw(st.integers(0, 3)) == 0,
+            "units": draw(st.sampled_from([None, None, "mm", "micron",
+                                           "meter"])),
             "seed": draw(st.integers(0, 2 ** 31)),
             "gz": draw(st.booleans())}
 
@@ -143,7 +145,8 @@ def check_case(ctx, case):
         raw = make_raw(case)
         path = os.path.join(d, "vol.nii" + (".gz" if case["gz"] else ""))
         slope, inter = case["scaling"] or (None, None)
-        nifti.write_nifti(path, raw, case["affine"]["matrix"], slope, inter)
+        nifti.write_nifti(path, raw, case["affine"]["matrix"], slope, inter,
+                          xyz_units=case.get("units"))
         img, ok = nifti.load_checked(path, raw, slope, inter)
         if not ok:
             ctx.count("precondition_failed")
@@ -265,12 +268,22 @@ def check_case(ctx, case):
                     ctx.fail("data_type %s cannot hold value %r (stored %s, "
                              "scaling %s)" % (dt, v, case["dtype"],
                                               case["scaling"]))
-        # resolution
+        # resolution.  The tool reads affines as millimetres (1e6 nm per
+        # unit) whatever unit the header declares; a tool that honoured the
+        # declared unit would be right as well - but resolution and transform
+        # must then use the SAME factor (checked below with `nm`).
         vs = np.sqrt((A[:3, :3] ** 2).sum(axis=0))
         res = np.array(info["scales"][0]["resolution"], dtype=float)
-        if np.any(np.abs(res - vs * 1e6) > 1e-9 * vs * 1e6):
+        nm = 1e6
+        declared = {"micron": 1e3, "meter": 1e9, "mm": 1e6}.get(
+            case.get("units"))
+        if declared and declared != 1e6 and np.all(
+                np.abs(res - vs * declared) <= 1e-9 * vs * declared):
+            nm = declared
+            ctx.count("declared_unit_honoured")
+        if np.any(np.abs(res - vs * nm) > 1e-9 * vs * nm):
             ctx.fail("resolution %s, expected %s nm" % (res.tolist(),
-                                                        (vs * 1e6).tolist()))
+                                                        (vs * nm).tolist()))
         # centre/corner identity
         T = np.array(T, dtype=float)
         if T.shape != (4, 4) or T[3].tolist() != [0, 0, 0, 1]:
@@ -278,12 +291,12 @@ def check_case(ctx, case):
         n = np.array(shape[:3])
         idx = [[0, 0, 0], (n - 1).tolist(), [n[0] - 1, 0, 0],
                [0, n[1] - 1, n[2] - 1], (n // 2).tolist(), [7, -3, 11]]
-        extent = 1e6 * (np.abs(A[:3, :3]) @ np.maximum(n, 12)).max() + 1e6 * \
+        extent = nm * (np.abs(A[:3, :3]) @ np.maximum(n, 12)).max() + nm * \
             np.abs(A[:3, 3]).max()
         for i in idx:
             i = np.array(i, dtype=float)
             ng = T @ np.append((i + 0.5) * res, 1.0)
-            nii = 1e6 * (A @ np.append(i, 1.0))
+            nii = nm * (A @ np.append(i, 1.0))
             if np.abs(ng[:3] - nii[:3]).max() > 1e-9 * extent:
                 ctx.fail("voxel %s: Neuroglancer places its centre at %s nm, "
                          "the NIfTI affine at %s nm" % (
